@@ -194,9 +194,12 @@ class Device:
                     if self.inject is not None and pd['op'] == self.inject:
                         fail = True
                     if fail:
-                        status, state = self.inject_status, ERROR
-                        self.state_err = True
-                        self.in_error = True
+                        # the status field carries the failure; a conformant device also enters
+                        # dfuERROR, a sloppy one may stay in dfuDNLOAD_IDLE (symbolic choice)
+                        conformant = bool(p.bool('error_enters_dfuERROR'))
+                        status, state = self.inject_status, (ERROR if conformant else DNLOAD_IDLE)
+                        self.state_err = conformant
+                        self.in_error = conformant
                         self.err_status = self.inject_status
                         self.error_reported.append(pd['kind'])
                     else:
